@@ -32,12 +32,13 @@ def process_level(res, tier):
         for sx, sy in ([(0, 0), (2, -1), (-3, 2)] if tier == "thorough" else [(0, 0), (2, -1)]):
             for si, (q0, p0) in enumerate([(1.0, 0.0), (-0.6, 0.9)]):
                 for it in ((2, 3, 4) if tier == "thorough" else (4,)):
-                    cases.append((n, sx, sy, si, q0, p0, it, 0))
-            cases.append((n, sx, sy, 0, 0.8, -0.5, 4, 3))    # with damping/diffusion and the stochastic tracking model: coordinates on the grid
+                    cases.append((n, sx, sy, si, q0, p0, it, 0, 0))
+            cases.append((n, sx, sy, 0, 0.8, -0.5, 4, 3, 0))
+            cases.append((n, sx, sy, 1, -0.6, 0.9, 4, 0, 1))    # time-dependent RF kick (phase modulation): particle and charge must get the same step's kick    # with damping/diffusion and the stochastic tracking model: coordinates on the grid
 
     def do(c):
-        n, sx, sy, si, q0, p0, it, fptrack = c
-        tag = "%d_%g_%g_%d_%d_%d" % (n, sx, sy, si, it, fptrack)
+        n, sx, sy, si, q0, p0, it, fptrack, mod = c
+        tag = "%d_%g_%g_%d_%d_%d_%d" % (n, sx, sy, si, it, fptrack, mod)
         start = os.path.join(wd, "s_%s.h5" % tag)
         pl.write_start_h5(start, n, blob(n, sx, sy, q0, p0, 0.6))
         tf = os.path.join(wd, "t_%s.txt" % tag)
@@ -46,6 +47,8 @@ def process_level(res, tier):
         a = ["-s", n, "-N", 32, "-T", 1, "-n", 1, "-G", 0, "-f", 45000, "--RenormalizeCharge", -1, "-i", start, "--padding", 2,
              "--PhaseSpaceShiftX", sx, "--PhaseSpaceShiftY", sy, "--InterpolationPoints", it, "--tracking", tf, "--FPTrack", fptrack]
         a += ["-d", 0, "--FPType", 0] if fptrack == 0 else ["-d", 2e-4]
+        if mod:
+            a += ["--RFPhaseModAmplitude", 0.012, "--RFPhaseModFrequency", 4 * 45000]
         r = pl.run(exe, a, wd, out="o_%s.h5" % tag)
         doc = pl.h5(r["h5"], maxv=20000) if r["rc"] == 0 else None
         for f in (start, tf, r["h5"], r["h5"] + ".cfg", r["h5"] + ".log"):
@@ -55,8 +58,8 @@ def process_level(res, tier):
                 pass
         return c, r, doc
     for c, r, doc in pl.pmap(do, cases):
-        n, sx, sy, si, q0, p0, it, fptrack = c
-        case = "process n=%d shift=%g,%g start=%d it=%d FPTrack=%d" % (n, sx, sy, si, it, fptrack)
+        n, sx, sy, si, q0, p0, it, fptrack, mod = c
+        case = "process n=%d shift=%g,%g start=%d it=%d FPTrack=%d rfmod=%d" % (n, sx, sy, si, it, fptrack, mod)
         rp = dict(cmd=r["cmd"], note="start file: Gaussian blob at (%g,%g) width 0.6; tracking file: that point and two corner points" % (q0, p0))
         if doc is None or "error" in doc:
             res.violate("C15/process/run-failed", case, "rc=%s %s" % (r["rc"], r["log"][-200:]), replay=rp)
@@ -66,7 +69,7 @@ def process_level(res, tier):
         p = doc["datasets"]["/EnergyAverage/data"]["data"]
         z, e = doc["datasets"]["/Info/AxisValues_z"]["data"], doc["datasets"]["/Info/AxisValues_E"]["data"]
         res.eval(case, pl.chash(case, pt[-1] if pt else 0), trivial=False)
-        key = "C15/process/%s" % ("rotation" if fptrack == 0 else "stochastic")
+        key = "C15/process/%s" % (("rotation" if not mod else "modulated-rf") if fptrack == 0 else "stochastic")
         d = 12.0 / (n - 1)
         bad = False
         for k, row in enumerate(pt):
